@@ -575,6 +575,15 @@ mod state {
         // through the public API into a vector of len() + 2 cells and looking where it landed
         let idx: Vec<String> = probes.iter().map(|p| show_opt(&slot_of(sm, p), |i| i.to_string())).collect();
         let init = sm.initial_state().map_err(|e| class(&e).to_string());
+        if let Ok(st) = &init {
+            // serialize_state: every name paired with the value at its slot
+            let ser = sm.serialize_state(st);
+            for (i, n) in names.iter().enumerate() {
+                if i < st.len() && ser.get(n).and_then(|x| x.as_f64()).map(|x| x.to_bits()) != Some(st[i].0.to_bits()) {
+                    extra += &format!(" INCONSISTENT(serialize_state {})", n);
+                }
+            }
+        }
         let init_s = match &init {
             Ok(st) => format!("Ok {}", show_state(st)),
             Err(c) => format!("Err {}", c),
